@@ -173,6 +173,8 @@ func checkC08(c *Ctx) {
 	borrowRule(c, "C09", "C09.unwind", "C08.unwind")
 	// property writes on one object never affect another: every assignment target (variable, element, property) stores a copy
 	borrowRule(c, "C07", "C07.bind", "C08.bind")
+	// the 得到 name is attached to the call that produces the value the evaluator binds (one owner per production)
+	borrowRule(c, "C03", "C03.yield", "C08.yield")
 
 	// ---- C08.args + C08.result
 	if f := u.ssaFunc("pkg/exec", "evalFunctionCall"); f != nil {
